@@ -328,8 +328,14 @@ fn parse_op(k: usize, op: &str) -> Option<Op> {
     })
 }
 
-fn parse_header(h: &str) -> Option<(bool, usize, Vec<usize>, usize)> {
-    let p: Vec<&str> = h.split(':').collect();
+/// `<mode>:<k>:<needs>/<end>[:j]` - with `:j` the consumers 2i and 2i+1 are two requests joined in ONE task: they are
+/// polled with the same waker (that of consumer 2i)
+fn parse_header(h: &str) -> Option<(bool, usize, Vec<usize>, usize, bool)> {
+    let mut p: Vec<&str> = h.split(':').collect();
+    let joined = p.len() == 4 && p[3] == "j";
+    if joined {
+        p.pop();
+    }
     if p.len() != 3 {
         return None;
     }
@@ -349,13 +355,13 @@ fn parse_header(h: &str) -> Option<(bool, usize, Vec<usize>, usize)> {
     if needs.len() > 600 {
         return None;
     }
-    Some((sync, k, needs, e))
+    Some((sync, k, needs, e, joined))
 }
 
 fn run(payload: &str) -> String {
     let mut pieces = payload.split(';');
     let header = pieces.next().unwrap_or("");
-    let (sync, k, needs, end_need) = match parse_header(header) {
+    let (sync, k, needs, end_need, joined) = match parse_header(header) {
         Some(h) => h,
         None => return "bad-case".to_string(),
     };
@@ -442,7 +448,7 @@ fn run(payload: &str) -> String {
                         None => "idle".to_string(),
                         Some((fut, api, d)) => {
                             let (api, d) = (*api, *d);
-                            let waker = Waker::from(wakers[c].clone());
+                            let waker = Waker::from(wakers[if joined { c - c % 2 } else { c }].clone());
                             let mut cx = Context::from_waker(&waker);
                             match fut.as_mut().poll(&mut cx) {
                                 Poll::Pending => {
